@@ -211,43 +211,6 @@ class C12Check(PoolCheck):
         return out
 
 
-class C09Check(PoolCheck):
-    """Adds the no-trace family: the same scenario without its rejected requests must produce the same event log."""
-
-    def families(self, tier):
-        return super().families(tier) + [("notrace", 2500 if tier == "quick" else 100000)]
-
-    def make_case(self, fam, seed, i, tier):
-        if fam == "notrace":
-            sc = gen.Gen(f"{seed}:C09nt:{i}", self.prof).scenario()
-            sc["notrace"] = True
-            return sc
-        return super().make_case(fam, seed, i, tier)
-
-    def run_case(self, case, verbose=False):
-        out = super().run_case(case, verbose)
-        if not case.get("notrace"):
-            return out
-        from .world import World
-
-        a, ra = self._last
-        nrej = sum(1 for e in a.log if e[0] == "rej_raise")
-        if not nrej or ra["viol"]:
-            return out
-        b = World(case, self.mods, skip_rejected=True)
-        b.run()
-        la = [e for e in norm_log(a.log) if e[0] not in ("rej_call", "rej_raise")]
-        lb = norm_log(b.log)
-        out["sit"] = dict(out["sit"])
-        out["sit"]["C09.notrace_compared"] = 1
-        if la != lb:
-            k = next((i for i, (x, y) in enumerate(zip(la, lb)) if x != y), min(len(la), len(lb)))
-            out["viol"] = list(out["viol"]) + [{"clause": "C09.no_trace", "msg": f"the run with its {nrej} rejected requests differs from the same run without them, at event {k}: "
-                                                 f"{la[k] if k < len(la) else None} vs {lb[k] if k < len(lb) else None}", "at": k, "triggers": ra["triggers"]}]
-            out["log_tail"] = [" ".join(map(str, e)) for e in la[max(0, k - 25):k + 5]] + ["--- same scenario without the rejected requests ---"] + [" ".join(map(str, e)) for e in lb[max(0, k - 5):k + 5]]
-        return out
-
-
 class SessionFamilyCheck(PoolCheck):
     """Adds a 'session' family: the operations of this property issued as control commands (in-memory sessions on a
     real, never started server object; optionally a second served pool of the same class that gets the same lines),
@@ -333,6 +296,56 @@ class C06Check(SessionFamilyCheck):
         sc["size"] = [None, 3, None, 5][i % 4]
 
 
+class C09Check(SessionFamilyCheck):
+    """Adds the no-trace family (the same scenario without its rejected requests must produce the same event log) and a
+    session family: requests with and without rejection causes sent as control commands, compared with a twin pool."""
+
+    session_prop = "C09"
+    session_key = "lock"
+    session_n = (200, 6000)
+
+    def session_only(self, cls):
+        if cls == "T":
+            return ["map", "starmap", "doublestarmap", "apply", "apply", "lock", "unlock", "is_locked", "num_running"]
+        return ["start", "start", "lock", "unlock", "is_locked", "stop", "num_running"]
+
+    def session_tweak(self, sc, i):
+        sc["sfunc"] = "work"
+
+    def families(self, tier):
+        return super().families(tier) + [("notrace", 2500 if tier == "quick" else 100000)]
+
+    def make_case(self, fam, seed, i, tier):
+        if fam == "notrace":
+            sc = gen.Gen(f"{seed}:C09nt:{i}", self.prof).scenario()
+            sc["notrace"] = True
+            return sc
+        return super().make_case(fam, seed, i, tier)
+
+    def run_case(self, case, verbose=False):
+        out = super().run_case(case, verbose)
+        if not case.get("notrace") or case.get("as_prop"):
+            return out
+        from .world import World
+
+        a, ra = self._last
+        nrej = sum(1 for e in a.log if e[0] == "rej_raise")
+        if not nrej or ra["viol"]:
+            return out
+        b = World(case, self.mods, skip_rejected=True)
+        b.run()
+        la = [e for e in norm_log(a.log) if e[0] not in ("rej_call", "rej_raise")]
+        lb = norm_log(b.log)
+        out["sit"] = dict(out["sit"])
+        out["sit"]["C09.notrace_compared"] = 1
+        if la != lb:
+            k = next((i for i, (x, y) in enumerate(zip(la, lb)) if x != y), min(len(la), len(lb)))
+            out["viol"] = list(out["viol"]) + [{"clause": "C09.no_trace", "msg": f"the run with its {nrej} rejected requests differs from the same run without them, at event {k}: "
+                                                 f"{la[k] if k < len(la) else None} vs {lb[k] if k < len(lb) else None}", "at": k, "triggers": ra["triggers"]}]
+            out["log_tail"] = [" ".join(map(str, e)) for e in la[max(0, k - 25):k + 5]] + ["--- same scenario without the rejected requests ---"] + [" ".join(map(str, e)) for e in lb[max(0, k - 5):k + 5]]
+        return out
+
+
 class C13Check(PoolCheck):
     """Adds the server family: a control session's pending flush and the program's own flush while the control server is stopped."""
 
@@ -408,7 +421,7 @@ reg(PoolCheck(
 ))
 
 reg(PoolCheck(
-    "C03", P(w={"cancel": 7, "cancel_group": 4, "cancel_all": 2, "stop": 5, "flush": 3, "reject": 0}, cb=0.85, cb_async=0.6, cb_gate=0.3, fault=0.2),
+    "C03", P(w={"cancel": 7, "cancel_group": 4, "cancel_all": 2, "stop": 5, "flush": 3, "reject": 0, "set_size": 1.5}, cb=0.85, cb_async=0.6, cb_gate=0.3, fault=0.2),
     "random scenarios mixing return/raise/cancel endings with none/plain/coroutine/gated/raising callbacks and repeated cancellations; "
     "non-trivial = both callback kinds fired and an async callback was used; distinct by signature",
     lambda s: any(k.startswith("cb.c.") for k in s) and any(k.startswith("cb.e.") for k in s) and (s.get("cb.e.async") or s.get("cb.c.async")),
@@ -519,7 +532,7 @@ reg(C13Check(
 ))
 
 reg(PoolCheck(
-    "C14", P(cls=["S"], npools=[1, 1, 2], w={"start": 10, "stop": 12, "cancel": 5, "open": 6, "apply": 0, "map": 0, "cancel_group": 1, "cancel_all": 0.3, "reject": 0, "gac": 0}),
+    "C14", P(cls=["S"], npools=[1, 1, 2], w={"start": 10, "stop": 12, "cancel": 5, "open": 6, "apply": 0, "map": 0, "cancel_group": 1, "cancel_all": 0.3, "reject": 0, "gac": 0.8}, fault=0.2, final_gac=0.3),
     "random SimpleTaskPool histories of start/stop/stop_all/cancel(id)/finish that leave gaps in the running ids, n from -1..5; "
     "non-trivial = stop() was called while the running ids had gaps; distinct by signature",
     lambda s: s.get("C14.gaps", 0) > 0,
